@@ -193,6 +193,13 @@ Definition run_dense (st : nat) (gen : bool) (op : Z) (d : dense) (args : list s
                (encSpec encM (obind (guard ((dimc tx x =? dimr ty y)%nat && (m =? dimr tx x)%nat && (n =? dimc ty y)%nat)
                                     (tab m n (mmul (dimc tx x) (opT tx (A_ x)) (opT ty (A_ y))))) (symok st)))
       | _, _, _, _ => sx_error 2 end
+  | 221%Z, [a; b; c; e; fa; fb] =>      (* prodMatMatInPlace with the receiver passed as x (fa) and/or y (fb) *)
+      match asMat a, asMat b, asB c, asB e, asB fa, asB fb with
+      | Some x, Some y, Some tx, Some ty, Some ax, Some ay =>
+          both (encRes encM (if gen then G_prodMatMat_alias sym d x y tx ty ax ay else D_prodMatMat_alias d x y tx ty ax ay))
+               (encSpec encM (obind (guard ((dimc tx x =? dimr ty y)%nat && (m =? dimr tx x)%nat && (n =? dimc ty y)%nat)
+                                    (tab m n (mmul (dimc tx x) (opT tx (A_ x)) (opT ty (A_ y))))) (symok st)))
+      | _, _, _, _, _, _ => sx_error 2 end
   | 23%Z, [a; b; c] =>
       match asMat a, asMat b, asB c with
       | Some aa, Some mm, Some t =>
